@@ -126,6 +126,28 @@ def make_scn(nproc, kinds, pre, name='foo'):
     return scn, steps, victims
 
 
+def judge_same_source(run, scn, res, path, shape, section='lockstep-2-same-source'):
+    run.count(section)
+    if res.get('harness_error') or len(res.get('steps') or []) != 2:
+        run.fail('harness', 'sandbox failure', {'error': res.get('harness_error'), 'scenario': scn})
+        return
+    case = {'scenario': scn, 'schedule': shape, 'same_source': path, 'exits': [o['exit'] for o in res['steps']], 'stderr': [o['stderr'][-200:] for o in res['steps']]}
+    after = res.get('after') or res['steps'][-1].get('after')
+    pairs, strays, orphans = putlib.new_trash_items(res['before'], after)
+
+    def saw(o):
+        return any(t[0] in ('lexists', 'exists') and t[1] and t[1][0] == path and t[2] == ['ok', True] for t in o['trace'])
+    claimed = [i for i, o in enumerate(res['steps']) if o['exit'] == 0 and saw(o)]
+    if len(claimed) > len(pairs):
+        run.fail('oracle', 'two trash-puts of the same file: %d of them saw it and reported success, but %d entr%s in the trash - a put '
+                 'that owns nothing says it trashed the file' % (len(claimed), len(pairs), 'y is' if len(pairs) == 1 else 'ies are'), case,
+                 key='success-without-entry', section=section)
+    if len(pairs) > 1 or strays or orphans:
+        run.fail('oracle', 'two trash-puts of the same file left more than one entry, or a half entry', dict(case, pairs=len(pairs), strays=strays[:3], orphans=orphans[:3]),
+                 key='same-source-leftovers', section=section)
+    run.nontriv(('same-source', tuple(case['exits']), len(pairs), '-f' in scn['steps'][0]['argv']))
+
+
 def schedules_systematic(nops=14):
     """process 1 runs entirely between the k-th and (k+1)-th operation of process 0, and the other way round; alternation"""
     out = []
@@ -249,6 +271,15 @@ def run(run, thorough):
             res = sandbox.execute_concurrent(scn, steps, sched)
             judge(run, dict(scn, steps=steps), res, victims, pre, 'failing-write:' + shape, 'lockstep-2-failing-write')
             judge_bystander(run, dict(scn, steps=steps), res, 'failing-write:' + shape, section='lockstep-2-failing-write')
+    # --- two trash-puts of the SAME path, with and without -f, in lock step: there is one file, so one entry - at most one of the two may
+    # report that it trashed it (exit 0 after having seen it there); the other one lost the race and says so, or (with -f) found nothing
+    for force in (False, True):
+        for shape, sched in schedules_systematic(nops=12) + [('random', [rng.randint(0, 1) for _ in range(60)]) for _ in range(4 if not thorough else 40)]:
+            scn, steps, victims = make_scn(2, ('f', 'f'), 'empty')
+            for st in steps:
+                st['argv'] = (['-f'] if force else []) + ['--', victims[0][0]]
+            res = sandbox.execute_concurrent(scn, steps, sched)
+            judge_same_source(run, dict(scn, steps=steps), res, victims[0][0], shape if shape != 'random' else sched)
     # --- 3 processes, random schedules
     for _ in range(15 if not thorough else 200):
         pre = rng.choice(pres)
@@ -298,6 +329,13 @@ def replay(run, payload):
         r = sandbox.execute(scn)
         if r.get('steps'):
             judge_inside(run, scn, r, 'replay')
+        return
+    if case.get('same_source'):
+        sched = case.get('schedule')
+        if isinstance(sched, str):
+            sched = dict(schedules_systematic(nops=12)).get(sched, [0, 1] * 40)
+        res = sandbox.execute_concurrent({k: v for k, v in scn.items() if k != 'steps'}, scn['steps'], sched)
+        judge_same_source(run, scn, res, case['same_source'], case.get('schedule'), 'replay')
         return
     steps = scn.get('steps') or []
     sched = case.get('schedule')
